@@ -23,7 +23,7 @@ use hydro_test::cluster::raft::{LogEntry, RaftConfig, Replica, raft};
 pub const META: PropMeta = PropMeta {
     id: "C40",
     quick_runs: 1_600,
-    thorough_runs: 200_000,
+    thorough_runs: 800_000,
     rule: "each run draws a workload from the run seed — optionally an uncontested warm-up election plus a committed seed entry, then 2-5 rounds of 1-6 actions (election-timer interrupt / client request / heartbeat-timer interrupt, each at a seeded member of the 3-member cluster); a seeded subset of rounds is barrier-free (no sim::quiesce between them, so timers race with deliveries) — and 4096 decision bytes for CompiledSim::fuzz_repro (delivery order, batching, tick order). After every barrier and at the end each member's newly committed entries are appended to its history. Distinct = distinct hash of (workload, decision log); non-trivial = at least one entry was committed by at least two members AND at least one barrier-free round carried two or more actions.",
     time_unit: "scheduled ticks",
     real: &[
